@@ -262,6 +262,56 @@ Definition load_main_raw (fs : list file) (c : cfg) (f : nat) (s0 : state) : (er
       end
   end.
 
+(* ---------- imports across languages.  load_models_using_filepattern / load_model_using_search_path pick the
+   metamodel of an imported file with metamodel_for_file_or_default_metamodel (registered languages); that
+   metamodel's internal_model_from_file first consults ITS OWN global repository - also for an import, which arrives
+   with the importer's callback - and otherwise parses the file with its own grammar, providers and processors; the
+   callback enters the new model into the IMPORTER's all_models.  Within one top-level load the other languages'
+   repositories are only read, so they appear here as an external cache x : file -> cached model, consulted exactly
+   where load_model calls the metamodel (wrapper around the recursive loader).  x = (fun _ => None) is the
+   single-language loader (RepoMLProofs.load_file_x_none). *)
+Definition with_ext (x : nat -> option nat) (ld : loader) : loader :=
+  fun g s => match x g with Some m' => (inr m', s) | None => ld g s end.
+
+Fixpoint load_file_x (x : nat -> option nat) (fs : list file) (c : cfg) (fuel : nat) (main : bool) (g : nat) (s : state)
+  : (err + nat) * state :=
+  match fuel with
+  | 0 => (inl EFuel, s)
+  | S k =>
+      match nth_error fs g with
+      | None => (inl (EMissing g), s)
+      | Some fc =>
+          let s1 := with_reads s (reads s ++ [g]) in
+          if fsyn fc then (inl (ESyntax g), s1) else
+          let m := length (heap s1) in
+          let s2 := alloc g fc s1 in
+          let reg y := if (main && negb (cglobal c))%bool then y else set_all g m y in
+          let s3 := if register_before_imports then reg s2 else s2 in
+          let '(r, s4) := if (clazy c && is_nil (frefs fc))%bool then (None, s3)
+                          else load_stmts (with_ext x (load_file_x x fs c k false)) m g (fimports fc) s3 in
+          match r with
+          | Some e => (inl e, handler m s4)
+          | None =>
+              let s5 := if register_before_imports then s4 else reg s4 in
+              if main then (inr m, s5)
+              else if fmp fc then (inl (EMp g), s5) else (inr m, s5)
+          end
+      end
+  end.
+
+(* xvals: the models held by the other languages' global repositories (get_models_loaded_with does not count them
+   as loaded by this call, so the cleanup after a model processor failure leaves them alone) *)
+Definition load_main_x_raw (x : nat -> option nat) (xvals : list nat) (fs : list file) (c : cfg) (f : nat) (s0 : state) : (err + nat) * state :=
+  let s := begin_op c s0 in
+  match (if cglobal c then dget f (allm s) else None) with
+  | Some m => if (model_processors_on_cached && flag_of fmp m s)%bool then (inl (EMp f), s) else (inr m, s)
+  | None =>
+      match load_file_x x fs c (S (length fs)) true f s with
+      | (inl e, s1) => (inl e, s1)
+      | (inr m, s1) => finish_main c f m (map snd (allm s) ++ xvals) s1
+      end
+  end.
+
 (* ---------- a main model loaded from a string: metamodel.model_from_str without a file name.
    No file is read and nothing is looked up in the global repository; the metamodel's callback does not
    register the model; the model loading providers (GlobalRepo: the registered patterns, given here as the
@@ -308,6 +358,29 @@ Definition load_main (fs : list file) (c : cfg) (f : nat) (s0 : state) : (err + 
 (* ---------- histories *)
 Definition load_str (fs : list file) (c : cfg) (fc : file) (s0 : state) : (err + nat) * state :=
   let r := load_str_raw fs c fc s0 in (fst r, tidy (live_bound s0 r) (snd r)).
+
+Definition load_main_x (x : nat -> option nat) (xvals : list nat) (fs : list file) (c : cfg) (f : nat) (s0 : state) : (err + nat) * state :=
+  let r := load_main_x_raw x xvals fs c f s0 in (fst r, tidy (live_bound s0 r) (snd r)).
+
+(* several registered languages, each metamodel with or without its own global repository: the state is the shared
+   heap of model objects plus one all_models per language with a global repository *)
+Record mlcfg := mkML { lglobal : list bool; lang_of : list nat }.
+Definition lang (mc : mlcfg) (f : nat) : nat := nth f (lang_of mc) 0.
+Definition lglob (mc : mlcfg) (L : nat) : bool := nth L (lglobal mc) false.
+Definition repo_of (repos : list (nat * list (nat * nat))) (L : nat) : list (nat * nat) :=
+  match dget L repos with Some a => a | None => [] end.
+Definition ext_of (mc : mlcfg) (repos : list (nat * list (nat * nat))) (L g : nat) : option nat :=
+  let Lg := lang mc g in
+  if Nat.eqb Lg L then None else if lglob mc Lg then dget g (repo_of repos Lg) else None.
+Definition ml_load (fs : list file) (mc : mlcfg) (f : nat) (ms : state * list (nat * list (nat * nat)))
+  : (err + nat) * (state * list (nat * list (nat * nat))) :=
+  let '(s, repos) := ms in
+  let L := lang mc f in
+  let c := mkCfg (lglob mc L) false [] in
+  let s0 := with_allm s (if lglob mc L then repo_of repos L else []) in
+  let xvals := flat_map (fun Lr => if Nat.eqb (fst Lr) L then [] else map snd (snd Lr)) repos in
+  let r := load_main_x (ext_of mc repos L) xvals fs c f s0 in
+  (fst r, (snd r, if lglob mc L then dset L (allm (snd r)) repos else repos)).
 
 Inductive op := OLoad (f : nat) | OWrite (f : nat) (fc : file) | OLoadStr (fc : file).
 Fixpoint set_nth {A} (i : nat) (x : A) (l : list A) : list A :=
